@@ -328,7 +328,7 @@ class Scheduler:
                 exc = me.pending_exc
                 me.pending_exc = None
                 import os
-                site = (me.index, kind, os.path.basename(code.co_filename), code.co_name, line, self.nevents)
+                site = (me.index, kind, os.path.basename(code.co_filename), code.co_name, line, self.nevents, me.events)
                 self.async_landings.append(site)
                 me.async_landed.append(site)
                 return exc() if isinstance(exc, type) else exc
